@@ -4,6 +4,7 @@ import Driver.Parse
 import PasetoModel.Backend
 import PasetoModel.Asym
 import PasetoModel.PaserkInst
+import PasetoModel.Rng
 /-! Line-protocol driver: executes the model's definitions (the ones the theorems are about) on
     the operation lines produced by the harness.  One result line per operation line. -/
 open PM
@@ -94,6 +95,17 @@ def keyIdStr (be : Backend) (k : Kind) (raw : Bytes) : Res Bytes :=
 
 def hexRes (r : Res Bytes) : String := showRes (r.map toHex)
 
+def parseSrc (s : String) : Option Src :=
+  if s == "." then some [] else
+  (s.splitOn ",").mapM (fun a => if a == "!" then some none else (ofHex a).map some)
+
+/-- parameter block of a (donor) password-wrapped string -/
+def donorParams (be : Backend) (kind : SKind) (donor : Bytes) : Res Bytes :=
+  ((Form.pw kind).parse be donor).bind fun blob =>
+    let S := pbkwOf be
+    if blob.length < S.prefixLen then .err .invalidKey
+    else .ok ((blob.drop S.saltLen).take S.paramLen)
+
 def parsePieces (s : String) : Option (List (List Bytes)) :=
   if s == "." then some [] else
   (s.splitOn "/").mapM (fun p =>
@@ -149,6 +161,17 @@ def step (line : String) : Option String :=
         let S := specLocalScheme be.version (cfgOf be)
         let S' : LocalScheme := { S with synth := noSynth }
         some (showRes (locSeal S' be key nonce msg f a))
+      else if op == "rng.encrypt" then do
+        let be ← Backend.ofString? be; let src ← parseSrc sk
+        let key ← ofHex msg; let msg ← ofHex f; let f ← ofHex a; let a ← ofHex rnd
+        some (showRes ((localKey key).bind fun k => (rngEncrypt be k msg f a src).map fun payload =>
+          toHex (showToken (Extracted.versionHeader be) jsonSuffix (Extracted.kindHeader .localK) ⟨payload, f⟩)))
+      else if op == "rng.pw" then do
+        let be ← Backend.ofString? be; let src ← parseSrc sk; let kind ← sk? (← Kind.ofString? msg)
+        let pass ← ofHex f; let donor ← ofHex a; let key ← ofHex rnd
+        some (showRes ((donorParams be kind donor).bind fun params => (keyDecode be kind.toKind key).bind fun key =>
+          (rngPbkwWrap be (Extracted.paserkHeader be) (Extracted.pwHeader kind) pass params key src).map fun blob =>
+            toHex (showSimple (Extracted.paserkHeader be) (Extracted.pwHeader kind) blob)))
       else none
   | ["pie.open", be, kind, wk, str, _want] => do
       let be ← Backend.ofString? be; let kind ← sk? (← Kind.ofString? kind)
@@ -195,6 +218,24 @@ def step (line : String) : Option String :=
   | ["id", be, kind, raw] => do
       let be ← Backend.ofString? be; let kind ← Kind.ofString? kind
       some (hexRes (keyIdStr be kind (← ofHex raw)))
+  | ["rng.pie", be, src, kind, wk, key] => do
+      let be ← Backend.ofString? be; let src ← parseSrc src; let kind ← sk? (← Kind.ofString? kind)
+      let wk ← ofHex wk; let key ← ofHex key
+      some (showRes ((keyDecode be .localK wk).bind fun wk => (keyDecode be kind.toKind key).bind fun key =>
+        (rngPieWrap be (Extracted.paserkHeader be) (Extracted.pieHeader kind) wk key src).map fun blob =>
+          toHex (showSimple (Extracted.paserkHeader be) (Extracted.pieHeader kind) blob)))
+  | ["rng.seal", be, src, pk, key] => do
+      let be ← Backend.ofString? be; let src ← parseSrc src
+      let pk ← ofHex pk; let key ← ofHex key
+      some (showRes ((keyDecode be .pkePublic pk).bind fun pk => (keyDecode be .localK key).bind fun key =>
+        (rngSeal be pk key src).map fun blob =>
+          toHex (showSimple (Extracted.paserkHeader be) (Extracted.sealHeader be) blob)))
+  | ["rng.lkey", _be, src] => do
+      let src ← parseSrc src
+      some (hexRes (rngLocalKey src))
+  | ["rng.skey", be, src] => do
+      let be ← Backend.ofString? be; let src ← parseSrc src
+      some (hexRes (rngSecretKey be src))
   | ["val", v, c] => do
       let v ← parseV v
       let c ← parseClaims c
